@@ -143,6 +143,14 @@ def run_plan(plan: dict) -> dict:
             C["probe.print_only_logging"] += 1
         if any(k in plan["logs"] for k in ("plot_periodicity", "plot_patient_periodicity")):
             C["probe.plots_on"] += 1
+    for op_ in plan["history"]:
+        C["fault.history." + op_["op"]] += 1
+    if plan["logs"]:
+        C["fault.logging_configuration"] += 1
+    for _ in plan["clock_jumps"]:
+        C["fault.clock_jump"] += 1
+    if plan["hashseed"] != 0:
+        C["fault.other_hash_seed"] += 1
     if plan["history"]:
         C["probe.history_before_call"] += 1
     if plan["hashseed"] != 0:
